@@ -4,7 +4,8 @@ Jobs: (1) TLC exhaustive on NetImpl (channel-table model of the network paths x 
 monitor, every send sequence and delivery order); (2) TLC (NetGen) generates every routing
 script; the harness plays each with seeded random nested payloads through the real paths
 (simulator cluster networking with the generated (de)serialization closures: o2m demux, m2o
-send, m2m demux, broadcast_closed; the real sinktools::demux_map fed like the production
+send, m2m demux, broadcast_closed from the process and from a cluster, on equal and unequal
+cluster sizes; the real sinktools::demux_map fed like the production
 sender; MemberId round trips), logging JSON at sender and receiver; TLC validates the trace
 against the monitor -- payload EQUALITY inside TLC decides fidelity; (3) seeded random larger
 rounds; (4) canaries: corrupted traces must be flagged."""
@@ -18,7 +19,7 @@ PROPS = ["C35"]
 ENGINE = "spec/Net: C35 monitor + channel-table model (TLC exhaustive), TLC-generated routing scripts played with seeded random nested payloads through the real simulator network paths / sinktools::demux_map / MemberId conversions, trace validation by TLC with payload equality"
 MANIFEST = {
     "C35": {
-        "text": "TLC exhaustively checks a channel-table model of the four addressing patterns plus demux_map (<=3-4 messages, every delivery order) against the C35 monitor. Every TLC-generated routing script (all routes of 3 senders x 3 receivers, <=2 messages quick / 3 thorough) and seeded random larger rounds are played with random nested payloads (structs, enums, options, vectors, strings incl. unicode/control characters, maps, 64-bit integers, member ids) through the real generated send/receive code in the Hydro simulator, through sinktools::demux_map with TaglessMemberId keys and bincode bytes, and through MemberId::into_tagless/from_tagless/serde; the original value is logged as JSON at the sender and the decoded value at the receiver; TLC validates: each delivery matches exactly one in-flight send to that member with the sender's id and an equal payload, nothing lost; round-tripped ids unchanged.",
+        "text": "TLC exhaustively checks a channel-table model of the four addressing patterns plus demux_map (<=3-4 messages, every delivery order) against the C35 monitor. Every TLC-generated routing script (all routes, <=2 messages quick / 3 thorough, on the 3x3 topology; the single-message and cluster-to-cluster scripts also on UNEQUAL cluster sizes 2->3, 3->2; thorough adds 1->3, 3->1, 2->4) and seeded random larger rounds are played with random nested payloads (structs, enums, options, vectors, strings incl. unicode/control characters, maps, 64-bit integers, member ids) through the real generated send/receive code in the Hydro simulator, through sinktools::demux_map with TaglessMemberId keys and bincode bytes, and through MemberId::into_tagless/from_tagless/serde; the original value is logged as JSON at the sender and the decoded value at the receiver; TLC validates: each delivery matches exactly one in-flight send to that member with the sender's id and an equal payload, nothing lost; round-tripped ids unchanged.",
         "note": "Simulator networking (not real sockets). No floats in payloads. Delivery order is not part of C35. JSON integers are logged as decimal strings (TLC ints are 32-bit), text ASCII-escaped: both injective.",
         "technique": "TLA+ spec model-checked with TLC + conformance (TLC cases replayed into the code; code traces validated by TLC)",
         "design_ref": "DESIGN.md §6.14 (C35)",
@@ -28,7 +29,7 @@ MANIFEST = {
 SD = os.path.join(vlib.SPEC, "Net")
 CRATE = os.path.join(vlib.ROOT, "harness_hydro", "hv_std")
 ACTIONS = ["Send1", "Bcast", "Deliver", "Quiesce"]
-PAT = {0: "o2m-demux", 1: "m2o-send", 2: "m2m-demux", 3: "broadcast", 4: "demux_map"}
+PAT = {0: "o2m-demux", 1: "m2o-send", 2: "m2m-demux", 3: "broadcast", 4: "demux_map", 5: "broadcast"}
 
 
 def _cfg(name, text):
@@ -86,10 +87,13 @@ def _report(res, trace, viol, what):
         raise vlib.ToolError("harness inconsistency (%s): %s" % (what, pre[:3]))
     for case, rule in viol:
         evs = cases.get(case, [])
-        pats = sorted({PAT.get(e.get("pat"), "?") for e in evs if e.get("e") in ("send", "deliver")})
+        pats = sorted({PAT.get(e.get("pat"), "?") for e in evs if e.get("e") in ("send", "bcast", "deliver")})
         area = "memberid" if any(e.get("e") == "rt" for e in evs) else "+".join(pats) or "net"
-        res.violation("net/%s/%s" % (area, rule), "rule %s broken in %s case %s" % (rule, what, case),
-                      {"events": evs})
+        if rule == "member-never-addressed":
+            area = "broadcast"
+        res.violation("net/%s/%s" % (area, rule),
+                      "rule %s broken in %s case %s (topology |source|x|dest| = %s)"
+                      % (rule, what, case, evs[0].get("topo") if evs else "?"), {"events": evs})
     return cases
 
 
@@ -175,6 +179,14 @@ def _drop_delivery(evs):
     return False
 
 
+def _drop_bcast_delivery(evs):
+    for i, e in enumerate(evs):
+        if e.get("e") == "deliver" and e["pat"] in (3, 5):
+            del evs[i]
+            return True
+    return False
+
+
 def _rt_changed(evs):
     for e in evs:
         if e.get("e") == "rt":
@@ -204,14 +216,14 @@ def run(tier):
     d = vlib.rundir("net")
 
     # (1) design
-    nb, mm = (3, 3) if thorough else (2, 3)
-    cfg = _cfg("net_mc.cfg", "SPECIFICATION Spec\nCONSTANTS\n  NA = 2\n  NB = %d\n  MaxMsgs = %d\n  Payloads = {1, 2}\n"
-                             "INVARIANTS Inv ChanFlight\nCHECK_DEADLOCK FALSE\n" % (nb, mm))
+    topos_mc = "ToposThorough" if thorough else "ToposQuick"
+    cfg = _cfg("net_mc.cfg", "SPECIFICATION Spec\nCONSTANTS\n  Topos <- %s\n  Payloads = {1, 2}\n"
+                             "INVARIANTS Inv ChanFlight\nCHECK_DEADLOCK FALSE\n" % topos_mc)
     r = vlib.tlc(SD, "NetImpl", cfg=cfg, workers=8, timeout=3000, xmx="8g")
     if not r.ok:
         raise vlib.ToolError("NetImpl model check failed (spec/design error):\n" + r.error_trace[-3000:])
     vlib.require_coverage(r, ACTIONS)
-    res.add_tlc(r, "NetImpl exhaustive (2 senders, %d receivers, <=%d messages, all delivery orders)" % (nb, mm))
+    res.add_tlc(r, "NetImpl exhaustive (topologies %s of NetImpl.tla: equal and unequal cluster sizes, all delivery orders)" % topos_mc)
 
     # (2) spec -> code: every routing script
     cfg = _cfg("net_gen.cfg", "SPECIFICATION Spec\nCONSTANTS\n  NA = 3\n  NB = 3\n  MaxMsgs = %d\nCHECK_DEADLOCK FALSE\n"
@@ -226,8 +238,10 @@ def run(tier):
     rfile = os.path.join(d, "routes.ndjson")
     vlib.write_ndjson(rfile, routes)
     trace = os.path.join(d, "replay_trace.ndjson")
-    summ = _run_harness(exe, ["replay", rfile, trace])
-    if summ["instances"] < 1 or summ["sends"] < len(routes):
+    # |source cluster| x |destination cluster|: equal AND unequal sizes
+    topos = "3x3,2x3,3x2,1x3,3x1,2x4" if thorough else "3x3,2x3,3x2"
+    summ = _run_harness(exe, ["replay", rfile, trace, topos])
+    if summ["instances"] < 3 or summ["sends"] < len(routes):
         raise vlib.ToolError("net replay did too little: %s" % summ)
     viol = _validate(trace, res, "replay")
     cases = _report(res, trace, viol, "replayed")
@@ -238,7 +252,7 @@ def run(tier):
 
     # (3) seeded random larger rounds
     rtrace = os.path.join(d, "random_trace.ndjson")
-    summ = _run_harness(exe, ["random", 1500 if thorough else 150, 8 if thorough else 6, rtrace])
+    summ = _run_harness(exe, ["random", 1500 if thorough else 150, 8 if thorough else 6, rtrace, topos])
     viol = _validate(rtrace, res, "random")
     rcases = _report(res, rtrace, viol, "random")
     _count(res, rcases)
@@ -246,7 +260,7 @@ def run(tier):
     res.evaluations += summ["sends"] + summ["roundtrips"]
     res.extra["net_random"] = summ
     for evs in rcases.values():
-        sends = [e for e in evs if e.get("e") == "send"]
+        sends = [e for e in evs if e.get("e") in ("send", "bcast")]
         if len(sends) >= 2 and len(res.samples) < 2:
             res.samples.append({"kind": "one round: sends and deliveries (payload JSON; numbers as '#n', text as '$..')",
                                 "events": evs[:5]})
@@ -261,6 +275,7 @@ def run(tier):
         (rtrace, _wrong_member, "delivered at another member"),
         (rtrace, _wrong_sender, "delivered with another sender id"),
         (rtrace, _drop_delivery, "delivery dropped"),
+        (rtrace, _drop_bcast_delivery, "one member misses a broadcast"),
         (rtrace, _rt_changed, "round-tripped member id changed"),
     ])
 
@@ -271,7 +286,8 @@ def run(tier):
         "the Hydro simulator's in-memory channels stand for the transport; the generated serialize/deserialize closures and member-id tagging are the real ones",
         "demux_map is fed exactly like serialize_bincode_with_type(is_demux=true) does: (id.into_tagless(), bincode bytes)",
         "payload equality = equality of the JSON forms (serde_json of the original vs. of the decoded value), compared inside TLC",
-        "no failures injected (TCP.fail_stop): at quiescence nothing may be in flight",
+        "no failures injected (TCP.fail_stop): at quiescence nothing may be in flight; a broadcast addresses every member of the destination cluster (member-never-addressed otherwise)",
+        "a simulator crash while routing (the dylib's panic aborts the child process that plays a topology) is recorded as a panic event of the round being played = VIOLATION, not a tool error",
     ]
     return {"C35": res}
 
